@@ -62,7 +62,7 @@ try:
     checks = {}
     for cid in [prop] + [c for c in extra if c != prop]:
         t = time.time()
-        cenv = dict(os.environ, FURAX_SRC=f'{scratch}/src')
+        cenv = dict(os.environ, FURAX_SRC=f'{scratch}/src', VERIF_EVIDENCE_DIR=os.path.join(VERIF, '.work', 'evidence_selftest'))
         p = subprocess.run([os.path.join(VERIF, 'check'), cid, '--tier', 'quick'], capture_output=True, text=True, env=cenv, cwd=VERIF)
         lines = [l for l in p.stdout.splitlines() if l.startswith(('VIOLATION', '#', 'HARNESS', 'KNOWN'))][:3]
         checks[cid] = dict(exit=p.returncode, seconds=round(time.time() - t), first_lines=[l[:300] for l in lines])
